@@ -253,6 +253,26 @@ func newServer(b gofakes3.Backend, opts ...gofakes3.Option) http.Handler {
 	return gofakes3.New(b, o...).Server()
 }
 
+// newServerWith: a server whose time-skew check is on (the default limit of 15 minutes around the fixed time
+// source) — newServer switches it off
+func newServerWith(b gofakes3.Backend, opts ...gofakes3.Option) http.Handler {
+	o := append([]gofakes3.Option{gofakes3.WithTimeSource(gofakes3.FixedTimeSource(fixedTime))}, opts...)
+	return gofakes3.New(b, o...).Server()
+}
+
+// withHeader adds a request header to every request that does not carry it
+type withHeader struct {
+	inner http.Handler
+	k, v  string
+}
+
+func (h withHeader) ServeHTTP(w http.ResponseWriter, r *http.Request) {
+	if _, ok := r.Header[http.CanonicalHeaderKey(h.k)]; !ok {
+		r.Header.Set(h.k, h.v)
+	}
+	h.inner.ServeHTTP(w, r)
+}
+
 // ---------------------------------------------------------------- requests
 
 type Resp struct {
